@@ -273,6 +273,17 @@ func (kc *Cache[V]) evict() *Entry[V] {
 		}
 	}
 	if n < 0 {
+		// every bucket is at or below its protected minimum (possible because there
+		// are 8*len(locus)+1 buckets); stay within capacity by taking from the
+		// farthest bucket that has anything.
+		for i, b := range kc.buckets {
+			if b.len() > 0 {
+				n = i
+				break
+			}
+		}
+	}
+	if n < 0 {
 		return nil
 	}
 	b := kc.buckets[n]
